@@ -41,8 +41,9 @@ def make_server(app):
     )
 
 
-def run_in_memory(raw_request: bytes, app, protocol_version="HTTP/1.1"):
-    """feed one request to a real WSGIRequestHandler; returns everything it wrote"""
+def run_in_memory(raw_request: bytes, app, protocol_version="HTTP/1.1", want_handler=False):
+    """feed one request to a real WSGIRequestHandler; returns everything it wrote
+    (and the handler object when asked: `handler.headers` is http.server's parse result)"""
     from werkzeug import serving
 
     H = type("H", (serving.WSGIRequestHandler,), {"protocol_version": protocol_version})
@@ -54,6 +55,8 @@ def run_in_memory(raw_request: bytes, app, protocol_version="HTTP/1.1"):
     h.wfile = io.BytesIO()
     with mock.patch.object(serving.selectors, "DefaultSelector", FakeSelector), mock.patch.object(serving, "_log", lambda *a, **k: None):
         h.handle()
+    if want_handler:
+        return h.wfile.getvalue(), h
     return h.wfile.getvalue()
 
 
